@@ -149,6 +149,10 @@ type multiSim struct {
 	sim   *ledgerSim // op -> tx helper bound to node A
 	// governance proposals the operators of ALL nodes put on their approve list (proposals.json in each data directory)
 	approved map[string]json.RawMessage
+	// double-sign evidence used at earlier heights of the run (replayed later)
+	oldEvidence  []*bft.DoubleSignEvidence
+	v2           bool // protocol version 2
+	slashPending bool // the last certificate orders a slash: the next block begins with it
 }
 
 // approve puts a proposal transaction on the approve list of every node
@@ -175,7 +179,10 @@ func (m *multiSim) close() {
 func newMultiSim(run int, seed int64, out *json.Encoder) (*multiSim, error) {
 	store.VerifPurgeBlockCache() // the block cache is process wide and keyed by height: a new chain must not see the previous one's blocks
 	m := &multiSim{run: run, out: out, rng: rand.New(rand.NewSource(seed)), nodes: map[string]*node{}}
+	m.v2 = run%4 == 2
+	protocolV2 = m.v2 // committee scoped slashing with the per-block budget (the slash tracker lives outside the store)
 	gs := ledgerGenesis(false, false)
+	protocolV2 = false
 	if run%3 == 1 { // a block size the mempool overflows: the proposer has to leave transactions out
 		base := gs.Params
 		gs.Params = func(p *fsm.Params) { base(p); p.Consensus.BlockSize = lib.MaxBlockHeaderSize + 1200 }
@@ -223,6 +230,43 @@ func (m *multiSim) restartD() error {
 	tune(nd)
 	m.nodes["D"] = nd
 	return nil
+}
+
+// evidence: genuine double-sign evidence about a committed height: the stored +2/3 certificate of that height against a
+// second certificate for the same view and another block that validator `who` signed as well
+func (m *multiSim) evidence(A *node, target uint64, who int) *bft.DoubleSignEvidence {
+	qc, e := A.st.GetQCByHeight(target)
+	if e != nil || qc == nil || qc.Header == nil || qc.Signature == nil {
+		return nil
+	}
+	voteA := &lib.QuorumCertificate{Header: qc.Header.Copy(), BlockHash: qc.BlockHash, ResultsHash: qc.ResultsHash, ProposerKey: qc.ProposerKey, Signature: qc.Signature}
+	voteB := &lib.QuorumCertificate{Header: qc.Header.Copy(), BlockHash: crypto.Hash([]byte(fmt.Sprintf("rival %d/%d", target, who))), ResultsHash: qc.ResultsHash, ProposerKey: qc.ProposerKey}
+	vs, err := A.c.FSM.LoadCommittee(1, qc.Header.RootHeight)
+	if err != nil {
+		return nil
+	}
+	_, idx, err := vs.GetValidatorAndIdx(A.valKeys[who].PublicKey().Bytes())
+	if err != nil {
+		return nil // not in that committee
+	}
+	mk := vs.MultiKey.Copy()
+	if mk.AddSigner(A.valKeys[who].Sign(voteB.SignBytes()), idx) != nil {
+		return nil
+	}
+	sig, e2 := mk.AggregateSignatures()
+	if e2 != nil {
+		return nil
+	}
+	voteB.Signature = &lib.AggregateSignature{Signature: sig, Bitmap: mk.Bitmap()}
+	return &bft.DoubleSignEvidence{VoteA: voteA, VoteB: voteB}
+}
+
+func (n *node) proposeWith(be *bft.ByzantineEvidence) (*proposal, lib.ErrorI) {
+	rc, blk, res, err := n.c.ProduceProposal(be, nil)
+	if err != nil {
+		return nil, err
+	}
+	return &proposal{rcBuild: rc, block: blk, results: res}, nil
 }
 
 // oneHeight runs one height over all paths
@@ -277,6 +321,9 @@ func (m *multiSim) oneHeight() (ok bool) {
 			}
 			// an unstake of a validator that is still staked reads the parameter the refused change touched
 			for w := 1; w <= 3; w++ {
+				if m.v2 && w < 3 {
+					continue // v1 and v2 stay in the committee in protocol 2 runs: they are the double signers
+				}
 				if v, e := A.c.FSM.GetValidator(A.valKeys[w].PublicKey().Address()); e == nil && v.UnstakingHeight == 0 {
 					b.Ops = append(b.Ops, Op{Op: "unstake", Who: w})
 					break
@@ -285,6 +332,9 @@ func (m *multiSim) oneHeight() (ok bool) {
 		}
 	}
 	for _, o := range b.Ops {
+		if m.v2 && o.Who < 3 && (o.Op == "unstake" || o.Op == "pause" || o.Op == "edit") {
+			continue
+		}
 		tx, err := m.sim.txFor(o)
 		if err != nil {
 			continue
@@ -305,8 +355,29 @@ func (m *multiSim) oneHeight() (ok bool) {
 		line.Txs++
 		_ = A.c.Mempool.HandleTransactions(bz)
 	}
+	// byzantine evidence circulated to the leader and to every replica for this height: a fresh double sign, one that was
+	// reported before (must not slash again) or one older than the evidence window (the whole report is dropped)
+	be := func() *bft.ByzantineEvidence { return &bft.ByzantineEvidence{DSE: bft.NewDSE()} }
+	var evs []*bft.DoubleSignEvidence
+	if h > 3 && (m.rng.Intn(3) == 0 || (m.v2 && h%2 == 0)) {
+		target := h - 1 - uint64(m.rng.Intn(2))
+		if m.rng.Intn(6) == 0 && h > 6 {
+			target = 1 + uint64(m.rng.Intn(2)) // expired
+		}
+		for _, who := range m.rng.Perm(3)[:1+m.rng.Intn(2)] {
+			if ev := m.evidence(A, target, who+1); ev != nil {
+				evs = append(evs, ev)
+			}
+		}
+		if len(m.oldEvidence) > 0 && m.rng.Intn(2) == 0 {
+			evs = append(evs, m.oldEvidence[m.rng.Intn(len(m.oldEvidence))]) // replayed
+		}
+		m.oldEvidence = append(m.oldEvidence, evs...)
+		be = func() *bft.ByzantineEvidence { return &bft.ByzantineEvidence{DSE: bft.NewDSE(evs)} }
+		line.Note = fmt.Sprintf("evidence:%d", len(evs))
+	}
 	// P: proposer
-	p, err := A.propose()
+	p, err := A.proposeWith(be())
 	if err != nil {
 		line.Hdrs = append(line.Hdrs, hdrRec("A", "P", nil, nil, err))
 		_ = m.out.Encode(line)
@@ -323,11 +394,13 @@ func (m *multiSim) oneHeight() (ok bool) {
 		return false
 	}
 	qc := msg.BlockAndCertificate
+	slashNext := p.results != nil && p.results.SlashRecipients != nil && len(p.results.SlashRecipients.DoubleSigners) > 0
+	defer func() { m.slashPending = slashNext }()
 	// F: the atomicity control only ever sees the transactions that were included; its own proposal must have the same roots
 	for _, tx := range blk.Transactions {
 		_ = F.c.Mempool.HandleTransactions(tx)
 	}
-	if pf, e := F.propose(); e != nil {
+	if pf, e := F.proposeWith(be()); e != nil {
 		line.Hdrs = append(line.Hdrs, hdrRec("F", "F", nil, nil, e))
 	} else {
 		fb := new(lib.Block)
@@ -335,7 +408,7 @@ func (m *multiSim) oneHeight() (ok bool) {
 		line.Hdrs = append(line.Hdrs, hdrRec("F", "F", fb.BlockHeader, pf.results, nil))
 	}
 	// V: replica validation on B (speculative execution; leaves a cached result)
-	br, e := B.c.ValidateProposal(p.rcBuild, qc, &bft.ByzantineEvidence{DSE: bft.DoubleSignEvidences{}})
+	br, e := B.c.ValidateProposal(p.rcBuild, qc, be())
 	if e != nil {
 		line.Hdrs = append(line.Hdrs, hdrRec("B", "V", nil, nil, e))
 	} else {
@@ -343,10 +416,10 @@ func (m *multiSim) oneHeight() (ok bool) {
 		B.c.Consensus.BlockResult = br
 	}
 	// C: a discarded speculative execution of ANOTHER proposal first (F's block), RPC-style reads, then replay
-	if m.rng.Intn(2) == 0 {
-		if pf, e2 := F.propose(); e2 == nil {
+	if m.rng.Intn(2) == 0 || m.slashPending { // always when this block begins with a slash (the slash budget is kept outside the store)
+		if pf, e2 := F.proposeWith(be()); e2 == nil {
 			if mf, e3 := F.certify(pf, []int{0, 1, 2, 3}, nil); e3 == nil {
-				_, _ = C.c.ValidateProposal(pf.rcBuild, mf.BlockAndCertificate, &bft.ByzantineEvidence{DSE: bft.DoubleSignEvidences{}})
+				_, _ = C.c.ValidateProposal(pf.rcBuild, mf.BlockAndCertificate, be())
 				C.c.FSM.Reset()
 			}
 		}
